@@ -151,6 +151,23 @@ func (w *World) execRaw(st *Step) (res StepResult) {
 				rc.docs[st.D] = nd
 				res.Applied = 1
 			}
+		case "attach_bad":
+			// an attach the server must refuse AFTER it has noted the attempt: the pack's
+			// first change carries client sequence 2 (a gap)
+			d := freshDoc()
+			_ = d.Update(func(r *yjson.Object, p *presence.Presence) error { p.Initialize(nil); return nil })
+			_ = d.Update(func(r *yjson.Object, p *presence.Presence) error { r.SetInteger("gap", 1); return nil })
+			pb := pack(d, false)
+			if len(pb.Changes) >= 2 {
+				pb.Changes = pb.Changes[1:]
+			}
+			_, err = rw.svc.AttachDocument(ctx, connect.NewRequest(&api.AttachDocumentRequest{ClientId: id, ChangePack: pb}))
+			if err != nil && (rd == nil || rd.status != "attached") {
+				// the client knows the document's id from elsewhere (ids are not secrets)
+				if info, ferr := w.mem.FindDocInfoByKey(context.Background(), w.Projects[0].ID, docKey(st.D)); ferr == nil && info != nil {
+					rc.docs[st.D] = &rawDoc{doc: freshDoc(), docID: string(info.ID), status: "attach_failed"}
+				}
+			}
 		case "pushpull", "detach", "remove":
 			d, docID := (*document.Document)(nil), zeroID
 			if rd != nil {
@@ -265,6 +282,8 @@ func (m *lifecycleMonitor) AfterStep(rc *RunCtx, i int, st *Step, res *StepResul
 	case "attach":
 		known = true
 		expect = active && m.preD != "attached"
+	case "attach_bad":
+		known, expect = true, false
 	case "pushpull":
 		known = true
 		expect = active && m.preD == "attached"
@@ -281,6 +300,12 @@ func (m *lifecycleMonitor) AfterStep(rc *RunCtx, i int, st *Step, res *StepResul
 	// the flag is set (checked below). Attaching its key again creates a new
 	// document (key : id is 1 : N).
 	if rw.removedSlot[st.D] && st.Flag != "activate" && st.Flag != "deactivate" {
+		known = false
+	}
+	// after a refused attach the server remembers the attempt ("attaching"): Detach and
+	// Remove are allowed to clean that up (EnsureDocumentAttachedOrAttaching) - or not;
+	// PushPull must be refused, a new Attach must be possible
+	if m.preD == "attach_failed" && (st.Flag == "detach" || st.Flag == "remove") {
 		known = false
 	}
 	rc.W.probe("lifecycle_call:" + st.Flag + ":" + res.Out)
@@ -404,7 +429,7 @@ func c11Config(r *rand.Rand) *RunConfig {
 	return &RunConfig{
 		Clients: 2, Docs: 2, Projects: 1, Steps: 8 + r.IntN(30),
 		SnapshotThreshold: pickN(r, []int64{2, 500}), SnapshotInterval: pickN(r, []int64{2, 500}), SnapshotCacheSize: 10,
-		W:     map[string]int{"activate": 3, "deactivate": 2, "attach": 6, "pushpull": 8, "detach": 4, "remove": 1},
+		W:     map[string]int{"activate": 3, "deactivate": 2, "attach": 6, "pushpull": 8, "detach": 4, "remove": 1, "attach_bad": 1},
 		Extra: map[string]int{"net_fault_pct": 5 * r.IntN(2), "shard_collide": r.IntN(2)},
 	}
 }
